@@ -179,8 +179,8 @@ func contentSpecs(r *runner.Run) []cfgSpec {
 	}
 	kinds := []string{"env", "file", "raw"}
 	lists := []string{"A", "global", "admin"}
-	refBad := chainSpec{Member: true, Content: "bad"}   // boot: referenced, blank
-	refV1 := chainSpec{Member: true, Content: "v1"}     // referenced, usable
+	refBad := chainSpec{Member: true, Content: "bad"}    // boot: referenced, blank
+	refV1 := chainSpec{Member: true, Content: "v1"}      // referenced, usable
 	unrefBad := chainSpec{Member: false, Content: "bad"} // blank, not (yet) referenced
 	with := func(base chainSpec, focus, kind, bad, pad string, alt bool, ops ...string) chainSpec {
 		base.Focus, base.Kind, base.Bad, base.Pad, base.Alt, base.Ops = focus, kind, bad, pad, alt, ops
